@@ -1,8 +1,8 @@
 (* Property C10 — request strings can never change the structure of SQL sent to ClickHouse.
    Only statements; proofs by reference. *)
 From Coq Require Import List String Ascii Bool ZArith.
-From Qryn Require Import model.Quote model.ChLex model.Like model.SqlSites gen.GenC10Sites.
-From Qryn Require Import proofs.QuoteProofs proofs.ChLexProofs proofs.LikeProofs proofs.SqlSitesProofs.
+From Qryn Require Import model.Quote model.ChLex model.Like model.SqlSites model.SqlTemplate gen.GenC10Sites.
+From Qryn Require Import proofs.QuoteProofs proofs.ChLexProofs proofs.LikeProofs proofs.SqlSitesProofs proofs.SqlTemplateProofs.
 Import ListNotations.
 Open Scope string_scope.
 
@@ -54,6 +54,30 @@ Example ctx_example :
   opens_literal (after QN "SELECT fingerprint FROM ts_gin WHERE ((key) == ('a')) and ((val) == (") = true
   /\ safe_restb ")) GROUP BY fingerprint" = true.
 Proof. split; reflexivity. Qed.
+
+(* ---- whole statements with the value written at several places (WHERE and HAVING of the stream
+   selector, ...): a statement shape is the list of texts between the places where the quoted value goes.
+   If the shape passes the value-independent check tpl_ok (every place is reached in a state where a quote
+   opens a literal, the text after it neither begins with a quote nor is empty before the end), then for
+   ALL values the instance has the token list tpl_toks: the tokens of the texts and one literal decoding to
+   the value at each place.  The check evaluates tpl_ok on every baseline statement of the correspondence
+   and compares every observed statement with its shape instantiated by quote_seq. *)
+Theorem template_instance_tokens : forall t rest s, tpl_ok QN t rest = true ->
+  lex (fill t rest (quote_seq s)) = tpl_toks QN t rest s.
+Proof. intros t rest s H. rewrite quote_seq_is_quote. exact (tpl_instance_tokens t rest s H). Qed.
+Print Assumptions template_instance_tokens.
+
+Theorem template_skeleton_invariant : forall t rest s1 s2, tpl_ok QN t rest = true ->
+  skeleton (lex (fill t rest (quote_seq s1))) = skeleton (lex (fill t rest (quote_seq s2))).
+Proof. intros t rest s1 s2 H. rewrite !quote_seq_is_quote. exact (tpl_skeleton_invariant t rest s1 s2 H). Qed.
+Print Assumptions template_skeleton_invariant.
+
+(* a real two-place statement (fingerprint selection of {a="zqxmark"}), split at the marker's literal *)
+Example shape_example :
+  let '(t0, rest) := split_all (quote_seq "zqxmark")
+    "SELECT fingerprint FROM ts_gin WHERE ((date) >= ('2023-11-14')) and (type IN (1,0)) and ((((key) == ('a')) and ((val) == ('zqxmark')))) GROUP BY fingerprint HAVING ((groupBitOr(bitShiftLeft(((key) == ('a')) and ((val) == ('zqxmark')), 0))) == (1))" in
+  List.length rest = 2%nat /\ tpl_ok QN t0 rest = true.
+Proof. vm_compute. split; reflexivity. Qed.
 
 (* ---- LIKE line filters (doLike after fix 0add983) *)
 Theorem like_table_is_source : gen_like_table = like_table.
